@@ -63,12 +63,12 @@ theorem wnE_noCont : ∀ (e : SElse) (f : Bool), wnE false f e = true → usesCo
       simp [usesContE, wnB_noCont t f h.1, wnE_noCont e f h.2]
 end
 
-theorem lowerElse_last : ∀ (e : SElse) (lp : Option (Name × Name)) (cur done : Name) (i : Nat),
+theorem p_lowerElse_last : ∀ (e : SElse) (lp : Option (Name × Name)) (cur done : Name) (i : Nat),
     ((lowerElse lp cur done e i).1).getLast? = some (.label done)
   | .none, _, _, _, _ => rfl
   | .els b, lp, cur, done, i => by rw [← List.head?_reverse]; simp [lowerElse]
   | .elif c t e, lp, cur, done, i => by
-      have ih := lowerElse_last e lp (lIf i) done (lowerB lp t (i+1)).2
+      have ih := p_lowerElse_last e lp (lIf i) done (lowerB lp t (i+1)).2
       rw [← List.head?_reverse]; simp [lowerElse, List.head?_append, ih]
 
 /-- after a statement other than `include` the current list does not end with an include statement -/
@@ -92,7 +92,7 @@ theorem endsInc_lowerS (s : SStmt) (lp : Option (Name × Name)) (i : Nat) (pre :
       subst h
       exact endsInc_append_of_last _ _ (.jump c none) rfl (by simp)
   | ite c t e =>
-      have ih := lowerElse_last e lp (lIf i) (lDone i) (lowerB lp t (i+1)).2
+      have ih := p_lowerElse_last e lp (lIf i) (lDone i) (lowerB lp t (i+1)).2
       refine endsInc_append_of_last _ _ (.label (lDone i)) ?_ (by simp)
       rw [← List.head?_reverse]; simp [lowerS, List.head?_append, ih]
   | «while» c b =>
@@ -181,11 +181,11 @@ theorem stepS : ∀ (s : SStmt) (st : PState) (sc below : List LabelDef) (il ifn
       finish_upd [hd]
   | .label l, st, sc, below, il, ifn, rest, hd, hfl, hl, hfn, hw, hfi, hi, he => by
       simp only [renderS, List.cons_append, List.nil_append]
-      rw [pl_cons _ (step_label st l)]
+      rw [pl_cons _ (p_step_label st l)]
       finish_upd [hd]
   | .jump l c, st, sc, below, il, ifn, rest, hd, hfl, hl, hfn, hw, hfi, hi, he => by
       simp only [renderS, List.cons_append, List.nil_append]
-      rw [pl_cons _ (step_jump st l c)]
+      rw [pl_cons _ (p_step_jump st l c)]
       finish_upd [hd]
   | .include incs, st, sc, below, il, ifn, rest, hd, hfl, hl, hfn, hw, hfi, hi, he => by
       cases incs with
@@ -561,8 +561,8 @@ theorem simple_shape (st : PState) (l : Line)
   cases l <;> simp only at hl
   case assign n e => exact ⟨_, step_assign st n e, by simp [shape_upd]; rfl⟩
   case exprStmt e => exact ⟨_, step_exprStmt st e, by simp [shape_upd]; rfl⟩
-  case label n => exact ⟨_, step_label st n, by simp [shape_upd]; rfl⟩
-  case jump n c => exact ⟨_, step_jump st n c, by simp [shape_upd]; rfl⟩
+  case label n => exact ⟨_, p_step_label st n, by simp [shape_upd]; rfl⟩
+  case jump n c => exact ⟨_, p_step_jump st n c, by simp [shape_upd]; rfl⟩
   case ret e => exact ⟨_, step_ret st e, by simp [shape_upd]; rfl⟩
   case «include» u sy =>
     simp only [stepLine]
